@@ -208,6 +208,8 @@ type Sim struct {
 	idRng    *rand.Rand
 	portTable map[string]*portEntry
 	upstreams map[string]Upstream
+	noJumps   bool
+	jumps     int // clock jumps injected so far
 	endSim   time.Duration
 
 	locks    map[uintptr]*lockInfo
@@ -852,7 +854,7 @@ func (s *Sim) idle(t *task) {
 	}
 	// 3. advance the clock; optionally jump past several deadlines (stalled process)
 	target := next
-	if s.cfg.ClockJumpPermille > 0 && s.Chance(SFault, s.cfg.ClockJumpPermille) {
+	if s.cfg.ClockJumpPermille > 0 && !s.noJumps && s.Chance(SFault, s.cfg.ClockJumpPermille) {
 		k := 1 + s.Choose(SFault, 4)
 		for i := 0; i < k; i++ {
 			if n2, ok2 := s.nextDeadline(target.Add(time.Nanosecond)); ok2 {
@@ -861,6 +863,7 @@ func (s *Sim) idle(t *task) {
 		}
 		if target.After(next) {
 			s.Fault("clock-jump")
+			s.jumps++
 		}
 	}
 	d := target.Sub(now)
@@ -1020,6 +1023,7 @@ func (s *Sim) Wait(hs ...*Handle) {
 // all are done.
 func (s *Sim) WaitTimeout(d time.Duration, hs ...*Handle) bool {
 	deadline := time.Now().Add(d)
+	jumps := s.jumps
 	for {
 		// let everything runnable run (and every re-poll settle), then look
 		s.Quiesce(0)
@@ -1034,6 +1038,13 @@ func (s *Sim) WaitTimeout(d time.Duration, hs ...*Handle) bool {
 		}
 		now := time.Now()
 		if !now.Before(deadline) {
+			if s.jumps != jumps {
+				// the clock leapt (a stalled process) while we waited: a bound in simulated time
+				// says nothing across a stall, so the wait starts over from here
+				jumps = s.jumps
+				deadline = now.Add(d)
+				continue
+			}
 			return false
 		}
 		// move the clock in hops bounded by the deadline
@@ -1108,6 +1119,15 @@ func (s *Sim) SetLimits(maxSteps uint64, tickLimit int) {
 
 // SetStrategy switches the scheduling strategy for the rest of the run (or until switched back)
 // and returns the previous one. Harnesses use it to obtain a non-preemptive reference execution.
+// SetClockJumps switches the injected clock jumps (idle time leaping past several deadlines, as
+// in a stalled process) on or off for the phases of a run that follow; it returns the previous
+// setting. Reference phases that must reproduce recorded instants exactly switch them off.
+func (s *Sim) SetClockJumps(on bool) bool {
+	prev := !s.noJumps
+	s.noJumps = !on
+	return prev
+}
+
 func (s *Sim) SetStrategy(st Strategy) Strategy {
 	prev := s.cfg.Strategy
 	s.cfg.Strategy = st
